@@ -387,7 +387,8 @@ def cidr(cfg, crate, I, rep):
     inv = {}
     custom_ok = False
     if isinstance(v, PhiV):
-        for c, x in v.alts:
+        from interp import flatten_phi
+        for c, x in flatten_phi(v):     # (a match on constant patterns and an if / else-if chain are the same table)
             xs = core(x)
             name = (xs.variant or "").split("::")[-1] if hasattr(xs, "variant") else None
             pos = [a for a in F.atoms(c) if a[0] == "eq" and F.evalf(c, {b: (b == a) for b in F.atoms(c)})]
